@@ -2,7 +2,7 @@
 // solve, RenormAbundance and the GetElementAbund / GetHNuclei helpers) on vectors read from stdin.
 // stdin per case:   opt  nref ref[0..nref-1]  ab[0..NEQUATIONS-1]
 // stdout per case:  flag  ab'[0..NEQUATIONS-1]  |  GetElementAbund(ab', e) for e = 0..NELEMENTS-1  ||  flag2  ab''[..]
-//                   (ab'' = a perturbed copy of ab' renormalised again by the same object)
+//                   (ab'' = a perturbed copy of ab' renormalised again by the same object; in every other case Reset is called in between)
 #include <stdio.h>
 #include <stdlib.h>
 #include <vector>
@@ -10,7 +10,7 @@
 #include "naunet_physics.h"
 
 int main() {
-    int opt, nref;
+    int opt, nref, ncase = 0;
     while (scanf("%d %d", &opt, &nref) == 2) {
         std::vector<double> ref(nref > NEQUATIONS ? nref : NEQUATIONS, 0.0);
         for (int i = 0; i < nref; i++) if (scanf("%lf", &ref[i]) != 1) return 2;
@@ -31,6 +31,8 @@ int main() {
         double ab2[NEQUATIONS];
         for (int i = 0; i < NEQUATIONS; i++) ab2[i] = ab[i] * (i % 2 ? 3.0 : 0.5);
         int flag2 = 0;
+        // every other case: the solver settings are changed in between (Reset); the stored reference is not a solver setting
+        if (ncase++ % 2) n.Reset(1, 1e-18, 1e-6, 200);
 #ifdef IDX_ELEM_H
         flag2 = n.Renorm(ab2);
 #endif
